@@ -282,7 +282,8 @@ def run(tier, replay):
         # confirmation: a mismatch that no open deviation explains is executed once more, in a fresh harness process
         # with little concurrency; only what fails again is reported (defects of the code are deterministic,
         # a busy shared machine is not)
-        suspects = [o["id"] for o in out if not o["ok"] and not _is_known(ctx, o["devs"])]
+        # (a call still blocked after the escalating waits is not machine noise: hangs are reported without a re-run)
+        suspects = [o["id"] for o in out if not o["ok"] and not _is_known(ctx, o["devs"]) and o["trace"]["got"]["kind"] != "hang"]
         unconfirmed = 0
         if suspects:
             time.sleep(2)
